@@ -11,7 +11,9 @@
 import ALV.Lemmas.C13Shape
 import ALV.Lemmas.C13Poles1
 import ALV.Lemmas.C13Res
+import ALV.Lemmas.C13ResRegion
 import ALV.Lemmas.C13Gamma
+import ALV.Lemmas.C13Euler
 import ALV.Lemmas.C13Comb
 import ALV.Lemmas.C13Contract
 import ALV.Lemmas.C13Hist
@@ -363,6 +365,53 @@ theorem resonator_z_exp_no_repair (f R ct : ℝ) (hR0 : 0 < R) (hR1 : R < 1) (hc
   rw [div_lt_one (by nlinarith [sq_nonneg ((1 + R ^ 2) * Real.cos f - 2 * R * ct)])]
   nlinarith [mul_pos hpos hpos]
 
+/-- **C13.5h** (the finding, both signs of `cos f`, in terms of `freq` and `bandwidth`) whenever
+`|cos f| > 1/cosh(bw/2)` — centre frequencies close to 0 OR to π, the closer the narrower the band —
+`resonator.z_exp` has a REAL pole of modulus strictly larger than the documented `e^{-bw/2}`
+(`(1+R²)/(2R) = cosh(bw/2)` for `R = e^{-bw/2}`). -/
+theorem resonator_z_exp_wrong_radius (f bw : ℝ) (h : 1 / Real.cosh (bw / 2) < |Real.cos f|) :
+    ∃ x : ℝ, IsPole (resonator .zExp f bw) (x : ℂ) ∧ Real.exp (-(bw / 2)) < ‖(x : ℂ)‖ := by
+  have hR0 := Real.exp_pos (-(bw / 2))
+  have hc : 2 * Real.exp (-(bw / 2)) < |Real.cos f| * (1 + Real.exp (-(bw / 2)) ^ 2) := by
+    by_contra hcon
+    push Not at hcon
+    exact absurd ((zexp_region_iff f bw).1 hcon) (not_le.2 h)
+  obtain ⟨x, hp, hx⟩ := res_zexp_wrong_radius [(1 - Real.exp (-(bw / 2)) ^ 2) * (1 / 2), 0,
+    -((1 - Real.exp (-(bw / 2)) ^ 2) * (1 / 2))] f _ hR0 hc
+  refine ⟨x, ?_, ?_⟩
+  · simp only [resonator, resonatorZExp_eq]; exact hp
+  · rw [Complex.norm_real, Real.norm_eq_abs]; exact hx
+
+/-- **C13.5i** the EXACT region where `resonator.z_exp` has its documented pole radius, for every
+centre frequency and bandwidth (no range restriction): all poles have modulus `e^{-bw/2}` if and
+only if `|cos f| ≤ 1/cosh(bw/2)`. -/
+theorem resonator_z_exp_radius_region (f bw : ℝ) :
+    (∀ p : ℂ, IsPole (resonator .zExp f bw) p → ‖p‖ = Real.exp (-(bw / 2)))
+      ↔ |Real.cos f| ≤ 1 / Real.cosh (bw / 2) := by
+  have hR0 := Real.exp_pos (-(bw / 2))
+  constructor
+  · intro hall
+    by_contra hcon
+    push Not at hcon
+    obtain ⟨x, hp, hx⟩ := resonator_z_exp_wrong_radius f bw hcon
+    rw [hall _ hp] at hx
+    exact lt_irrefl _ hx
+  · intro hc p hp
+    simp only [resonator, resonatorZExp_eq] at hp
+    exact res_pole_radius _ _ _ hR0
+      ((ctZ_sq_le_one_iff f _ hR0).2 ((zexp_region_iff f bw).2 hc)) p hp
+
+/-- **C13.5j** the same region as an interval of centre frequencies: for `f ∈ [0, π]` the documented
+radius holds exactly for `arccos(1/cosh(bw/2)) ≤ f ≤ π - arccos(1/cosh(bw/2))`
+(e.g. `bw = 1`: `0.481 ≤ f ≤ 2.661`; `bw = 0.1`: `0.04998 ≤ f ≤ 3.0916`). -/
+theorem resonator_z_exp_radius_interval (f bw : ℝ) (h0 : 0 ≤ f) (h1 : f ≤ Real.pi) :
+    (∀ p : ℂ, IsPole (resonator .zExp f bw) p → ‖p‖ = Real.exp (-(bw / 2)))
+      ↔ Real.arccos (1 / Real.cosh (bw / 2)) ≤ f ∧ f ≤ Real.pi - Real.arccos (1 / Real.cosh (bw / 2)) := by
+  rw [resonator_z_exp_radius_region]
+  have hc := one_le_cosh' (bw / 2)
+  exact abs_cos_le_iff f _ h0 h1 (by positivity)
+    (by rw [div_le_one (by linarith)]; exact hc)
+
 /-! ### 6. comb filters -/
 
 /-- **C13.6a** `comb.fb(D, α)` run by the generated filter loop (C04 model: `evalIR (compile …)`)
@@ -507,7 +556,8 @@ theorem gammatone_slaney_sections (f bw : ℝ) (h0 : 0 < f) (h1 : f < Real.pi) (
 /-- **C13.7c** `gammatone.sampled`: `eta` sections over the same denominator, poles exactly
 `A·e^{±jf}` with `A = e^{-bw} < 1`; the `eta - 1` all-pole sections have unit gain at the centre
 frequency; the first section has unit gain there provided its un-normalised numerator does not
-vanish at `e^{jf}` — which is proved for `eta = 1` (`gammatone_sampled_first_eta1`). -/
+vanish at `e^{jf}` — which is proved for EVERY `eta` (`gammatone_sampled_numerator_ne_zero`, 7g; the
+unconditional statement is `gammatone_sampled_all_sections`, 7i). -/
 theorem gammatone_sampled_sections (f bw φ : ℝ) (eta : ℕ) (h0 : 0 < f) (h1 : f < Real.pi)
     (hbw : 0 < bw) :
     (gammatoneSampled f bw φ eta).length = eta - 1 + 1 ∧ Real.exp (-bw) < 1 ∧
@@ -568,6 +618,79 @@ theorem gammatone_sampled_first_eta1 (f bw φ : ℝ) (h0 : 0 < f) (h1 : f < Real
   rw [hb0, hsφ] at this
   norm_num at this
 
+/-- **C13.7g** (closed form of the coded numerator) `(numerator / denominator).diff(n, mul_after=-z)`
+applies `θ = -z·d/dz` `n` times to `½(e^{jφ}/(1 - a z⁻¹) + e^{-jφ}/(1 - ā z⁻¹))`, `a = A e^{jf}`.  With
+the Eulerian polynomials `E₀ = 1`, `E_{n+1} = (1 - u)·u·E_n' + (n+1)·u·E_n` (`ALV.C13.eul`; 7h lists
+`E₁ … E₃`) the numerator list the code builds (`diffNum`: `n` passes of
+`num ← -z·(num'·den - order·num·den')` on coefficient lists) satisfies at the centre frequency,
+`x = e^{-jf}`, `v = A e^{-2jf}`:
+`2·N_n(x) = e^{jφ}·E_n(A)·(1 - v)^{n+1} + e^{-jφ}·E_n(v)·(1 - A)^{n+1}` — for all real `A`, `f`, `φ`, all `n`. -/
+theorem gammatone_sampled_numerator_closed_form (A f φ : ℝ) (n : ℕ) :
+    2 * polyEvalC (Complex.exp (-(I * f)))
+        (diffNum [Real.cos φ, -(A * Real.cos (f - φ))] [1, -(2 * A * Real.cos f), A ^ 2] n)
+      = Complex.exp (I * φ) * (eul n : Polynomial ℂ).eval (A : ℂ)
+          * (1 - A * Complex.exp (-(I * f)) ^ 2) ^ (n + 1)
+        + Complex.exp (-(I * φ)) * (eul n : Polynomial ℂ).eval (A * Complex.exp (-(I * f)) ^ 2)
+          * (1 - (A : ℂ)) ^ (n + 1) :=
+  gt_sampled_closed_form A f φ n
+
+/-- **C13.7h** the Eulerian polynomials of 7g are what their name says: `E₁ = u`, `E₂ = u + u²`,
+`E₃ = u + 4u² + u³` (the case `eta = 4` used in practice), `E₄ = u + 11u² + 11u³ + u⁴`; in general
+the coefficients are non-negative reals, vanish above degree `n`, and the leading one is 1 — whence
+`|E_n(v)| ≤ E_n(|v|)` and `E_n(A) > 0` for `A > 0`. -/
+theorem eulerian_polynomials :
+    (∀ u : ℂ, (eul 1 : Polynomial ℂ).eval u = u ∧ (eul 2 : Polynomial ℂ).eval u = u + u ^ 2 ∧
+      (eul 3 : Polynomial ℂ).eval u = u + 4 * u ^ 2 + u ^ 3 ∧
+      (eul 4 : Polynomial ℂ).eval u = u + 11 * u ^ 2 + 11 * u ^ 3 + u ^ 4) ∧
+    (∀ n k : ℕ, 0 ≤ (eul n : Polynomial ℝ).coeff k ∧ (n < k → (eul n : Polynomial ℝ).coeff k = 0)) ∧
+    (∀ n : ℕ, (eul n : Polynomial ℝ).coeff n = 1) ∧
+    (∀ (n : ℕ) (v : ℂ), ‖(eul n : Polynomial ℂ).eval v‖ ≤ (eul n : Polynomial ℝ).eval ‖v‖) ∧
+    (∀ (n : ℕ) (A : ℝ), 0 < A → 0 < (eul n : Polynomial ℝ).eval A) := by
+  refine ⟨fun u => ?_, fun n k => ⟨(eul_coeff_real n k).1, (eul_coeff_real n k).2.1⟩,
+    fun n => (eul_coeff_real n n).2.2 rfl, eul_eval_norm_le, eul_eval_pos⟩
+  refine ⟨?_, ?_, ?_, ?_⟩ <;>
+    simp [eul, theta, Polynomial.derivative_mul, Polynomial.derivative_pow] <;> ring
+
+/-- **C13.7i** the differentiated numerator of `gammatone.sampled` does NOT vanish at the centre
+frequency — for every order `eta`, every phase, every `f ∈ (0, π)`, every bandwidth `> 0`: in 7g the
+first summand has modulus `E_n(A)·|1 - v|^{n+1}`, the second at most `E_n(A)·(1 - A)^{n+1}`, and
+`|1 - v|² = (1 - A)² + 4A sin² f > (1 - A)²`.  So the division by `abs(f0.freq_response(freq))` in the
+code never divides by zero (over the reals) and the hypothesis of 7c always holds. -/
+theorem gammatone_sampled_numerator_ne_zero (f bw φ : ℝ) (eta : ℕ) (h0 : 0 < f) (h1 : f < Real.pi)
+    (hbw : 0 < bw) :
+    polyMagSq (diffNum [Real.cos φ, -(Real.exp (-bw) * Real.cos (f - φ))]
+        [1, -(2 * Real.exp (-bw) * Real.cos f), Real.exp (-bw) ^ 2] (eta - 1)) f ≠ 0 :=
+  gt_sampled_num_ne_zero _ f φ (eta - 1) (Real.exp_pos _)
+    (by rw [Real.exp_lt_one_iff]; linarith) (Real.sin_pos_of_pos_of_lt_pi h0 h1).ne'
+
+/-- **C13.7j** (was PENDING) the FIRST section of `gammatone.sampled` has unit gain at the centre
+frequency for EVERY order `eta` and every phase, without any hypothesis on the numerator.
+(`eta = 0` is refused by the code's `assert eta >= 1`; the model reads it as `eta = 1`.) -/
+theorem gammatone_sampled_first_unit_gain_all_eta (f bw φ : ℝ) (eta : ℕ) (h0 : 0 < f)
+    (h1 : f < Real.pi) (hbw : 0 < bw) :
+    ∀ s ∈ (gammatoneSampled f bw φ eta).head?, magSq s f = 1 :=
+  (gammatone_sampled_sections f bw φ eta h0 h1 hbw).2.2.2.2
+    (gammatone_sampled_numerator_ne_zero f bw φ eta h0 h1 hbw)
+
+/-- **C13.7k** `gammatone.sampled` in the words of the property: `max eta 1` sections, EVERY one of
+them with unit gain at the centre frequency and poles exactly `A·e^{±jf}`, `A = e^{-bw} < 1`. -/
+theorem gammatone_sampled_all_sections (f bw φ : ℝ) (eta : ℕ) (h0 : 0 < f) (h1 : f < Real.pi)
+    (hbw : 0 < bw) :
+    (gammatoneSampled f bw φ eta).length = eta - 1 + 1 ∧ Real.exp (-bw) < 1 ∧
+    ∀ s ∈ gammatoneSampled f bw φ eta, magSq s f = 1 ∧
+      ∀ p : ℂ, IsPole s p ↔ p = Real.exp (-bw) * Complex.exp (I * f) ∨
+                           p = Real.exp (-bw) * Complex.exp (-(I * f)) := by
+  obtain ⟨hl, hA, hp, ht, _⟩ := gammatone_sampled_sections f bw φ eta h0 h1 hbw
+  have hh := gammatone_sampled_first_unit_gain_all_eta f bw φ eta h0 h1 hbw
+  refine ⟨hl, hA, fun s hs => ⟨?_, hp s hs⟩⟩
+  cases hL : gammatoneSampled f bw φ eta with
+  | nil => rw [hL] at hs; cases hs
+  | cons x xs =>
+    rw [hL] at hs hh ht
+    rcases List.mem_cons.1 hs with h | h
+    · rw [h]; exact hh x (by simp)
+    · exact ht s (by simpa using h)
+
 /-- **C13.7e** `gammatone.klapuri`: four sections (`resonator.z_exp` / `poles_exp` with bandwidth
 `2·bw`), each stable and with unit gain at the centre frequency. -/
 theorem gammatone_klapuri_sections (f bw : ℝ) (h0 : 0 < f) (h1 : f < Real.pi) (hbw : 0 < bw) :
@@ -615,14 +738,6 @@ theorem dc_nyquist_are_freq_response (s : Coefs ℝ) :
   · intro h
     rw [cexp_pi_point, respOfFilter_real _ _ (-1) (by norm_num) h]
     simp [nyquistGain, gainReal]
-
--- PENDING
-/-- the first section of `gammatone.sampled` has unit gain for EVERY order `eta` (proved above for
-`eta = 1`, and in general under the hypothesis that the differentiated numerator does not vanish
-at `e^{jf}`; the general non-vanishing is carried by the tie) -/
-def gammatone_sampled_first_unit_gain_all_eta : Prop :=
-  ∀ (f bw φ : ℝ) (eta : ℕ), 0 < f → f < Real.pi → 0 < bw → 1 ≤ eta →
-    ∀ s ∈ (gammatoneSampled f bw φ eta).head?, magSq s f = 1
 
 /-! ### 9. the responses are defined (no nan) and the resonant frequencies exist -/
 
@@ -813,12 +928,12 @@ theorem resonator_meets_contract (st : ResStrategy) (f bw : ℝ) (h0 : 0 < f) (h
   · cases st <;> simp [resonatorSpec, resonatorContract, resonatorFreqContract]
   · cases st <;> simp [resonatorSpec, resonatorContract, resonatorFreqContract]
 
-/-- **C13.10d** gammatone sections meet their contract records: every `slaney` section, every
-all-pole section of `sampled` (unit gain at `f`, poles of modulus `e^{-bw} < 1`), every `klapuri`
-section (unit gain at `f`, stable). -/
+/-- **C13.10d** gammatone sections meet their contract records: every `slaney` section, EVERY
+section of `sampled` for every order and phase — the differentiated first one included, by 7i —
+(unit gain at `f`, poles of modulus `e^{-bw} < 1`), every `klapuri` section (unit gain at `f`, stable). -/
 theorem gammatone_meets_contract (f bw : ℝ) (h0 : 0 < f) (h1 : f < Real.pi) (hbw : 0 < bw) :
     (∀ s ∈ gammatoneSlaney f bw, Meets s (gammatoneSectionContract f bw true)) ∧
-    (∀ (φ : ℝ) (eta : ℕ), ∀ s ∈ (gammatoneSampled f bw φ eta).tail,
+    (∀ (φ : ℝ) (eta : ℕ), ∀ s ∈ gammatoneSampled f bw φ eta,
       Meets s (gammatoneSectionContract f bw true)) ∧
     (∀ s ∈ gammatoneKlapuri f bw, Meets s (gammatoneSectionContract f bw false)) := by
   obtain ⟨m1, m2⟩ := gammatone_pole_modulus f bw
@@ -829,9 +944,10 @@ theorem gammatone_meets_contract (f bw : ℝ) (h0 : 0 < f) (h1 : f < Real.pi) (h
     rcases (hp p).1 hpp with h' | h' <;> rw [h']
     · exact m1
     · exact m2
-  · obtain ⟨_, hA, hp, hg, _⟩ := gammatone_sampled_sections f bw φ eta h0 h1 hbw
-    refine meets_section_radius s f bw (hg s hs) (fun p hpp => ?_) hA
-    rcases (hp s (List.mem_of_mem_tail hs) p).1 hpp with h' | h' <;> rw [h']
+  · obtain ⟨_, hA, h⟩ := gammatone_sampled_all_sections f bw φ eta h0 h1 hbw
+    obtain ⟨hg, hp⟩ := h s hs
+    refine meets_section_radius s f bw hg (fun p hpp => ?_) hA
+    rcases (hp p).1 hpp with h' | h' <;> rw [h']
     · exact m1
     · exact m2
   · obtain ⟨_, h⟩ := gammatone_klapuri_sections f bw h0 h1 hbw
@@ -936,6 +1052,20 @@ example (bw : ℝ) : 2 * Real.exp (-(bw / 2)) * Real.cos (Real.pi / 2)
 -- 5e: the `z_exp` hypothesis holds e.g. at f = π/2 for every bandwidth
 example (bw : ℝ) : |Real.cos (Real.pi / 2)| * (1 + Real.exp (-(bw / 2)) ^ 2) ≤ 2 * Real.exp (-(bw / 2)) := by
   simp; exact (Real.exp_pos _).le
+-- 5h: outside the region (f = 1/10, bw = 1) ...
+example : 1 / Real.cosh ((1 : ℝ) / 2) < |Real.cos (1 / 10)| := by
+  have hc : 1 - (1 / 10 : ℝ) ^ 2 / 2 ≤ Real.cos (1 / 10) := Real.one_sub_sq_div_two_le_cos
+  have h1 : (17 / 16 : ℝ) ≤ Real.cosh (1 / 2) := by
+    have ha := Real.add_one_le_exp ((1 : ℝ) / 2)
+    have hb := Real.add_one_le_exp (-((1 : ℝ) / 2))
+    have hq := Real.quadratic_le_exp_of_nonneg (by norm_num : (0 : ℝ) ≤ 1 / 2)
+    rw [Real.cosh_eq]
+    linarith
+  rw [abs_of_pos (by linarith), div_lt_iff₀ (by linarith)]
+  nlinarith
+-- 5i / 5j: ... and inside it (f = π/2, every bandwidth)
+example (bw : ℝ) : |Real.cos (Real.pi / 2)| ≤ 1 / Real.cosh (bw / 2) := by
+  rw [Real.cos_pi_div_two, abs_zero]; exact (one_div_pos.2 (Real.cosh_pos _)).le
 -- 5f: the real-pole regime is inside the property's parameter range: f = 1/10, bw = 1
 example : 2 * Real.exp (-((1 : ℝ) / 2)) < Real.cos (1 / 10) * (1 + Real.exp (-((1 : ℝ) / 2)) ^ 2) := by
   have hc : 1 - (1 / 10 : ℝ) ^ 2 / 2 ≤ Real.cos (1 / 10) := Real.one_sub_sq_div_two_le_cos
@@ -951,7 +1081,16 @@ example : ([0, 0, 0] : List ℝ).length = (combFb (2 + 1) (1 / 2 : ℝ)).den.tai
 -- 7a / 8a: a non-zero gain / a non-vanishing denominator
 example : polyMagSq (lowpass .poleExp (1 : ℝ)).den 2 ≠ 0 :=
   (lowpass_highpass_response_defined .poleExp 1 one_pos (by linarith [Real.two_le_pi]) 2).1
--- 7c: the non-vanishing hypothesis is theorem 7d for eta = 1
+-- 7c: the non-vanishing hypothesis is theorem 7d for eta = 1 and theorem 7i for every eta
+-- 7i / 7j / 7k: the order used in practice, eta = 4, at f = 1, bw = 1/2, phase 1/3
+example : polyMagSq (diffNum [Real.cos (1 / 3), -(Real.exp (-(1 / 2 : ℝ)) * Real.cos (1 - 1 / 3))]
+    [1, -(2 * Real.exp (-(1 / 2 : ℝ)) * Real.cos 1), Real.exp (-(1 / 2 : ℝ)) ^ 2] (4 - 1)) 1 ≠ 0 :=
+  gammatone_sampled_numerator_ne_zero 1 (1 / 2) (1 / 3) 4 one_pos (by linarith [Real.two_le_pi]) (by norm_num)
+example : (gammatoneSampled (1 : ℝ) (1 / 2) (1 / 3) 4).length = 4 ∧
+    ∀ s ∈ gammatoneSampled (1 : ℝ) (1 / 2) (1 / 3) 4, magSq s 1 = 1 := by
+  obtain ⟨hl, _, h⟩ := gammatone_sampled_all_sections 1 (1 / 2) (1 / 3) 4 one_pos
+    (by linarith [Real.two_le_pi]) (by norm_num)
+  exact ⟨hl, fun s hs => (h s hs).1⟩
 
 -- 11e: a bank of two lowpass designs sharing ONE control (initial value 1, later set to 3/2): every
 -- value the shared argument can take is in (0, π)
